@@ -64,6 +64,10 @@ def resolve_names(node):
         if isinstance(node.ctx, ast.Store) and isinstance(namespace, ast.ClassDef):
             binding.disallow_rename()
 
+            # The class body also reads this name. Where it does so before binding it the value comes from the module namespace
+            # (or builtins), not from an enclosing function, so the global of that name has to keep its spelling too.
+            get_binding(node.id, get_global_namespace(node)).disallow_rename()
+
     elif isinstance(node, ast.ClassDef) and node.name in node.namespace.nonlocal_names:
         binding = get_binding_disallow_class_namespace_rename(node.name, node.namespace)
         binding.add_reference(node)
